@@ -21,7 +21,9 @@
    dtype of opd / mask do not reach the model: they denote the same values, and the tie checks that
    lentil agrees.  Repeated modes make the family dependent: the solver contract does not apply
    (the executed solver answers Err; the tie decides those calls by the oracle only).
-   Not modelled: modes given as a nested (2-d) array; numpy broadcasting of an opd whose shape
+   An empty list of modes is refused by zernike_fit / zernike_remove / zernike_basis(vectorize=True) (reshape of
+   an empty cube), accepted by zernike_basis(vectorize=False) and - as an empty coefficient list - by zernike_compose.
+   Not modelled: modes given as a nested (2-d) array or as floats; an opd that is not 2-d; numpy broadcasting of an opd whose shape
    differs from the mask's (the model refuses it). *)
 From LV Require Export Lib.Arr Lib.Lsq.
 
@@ -58,13 +60,26 @@ Definition basis_mat (mask : arr S) (modes : list Z) (normalize : bool) (crd : o
 (* zernike_index raises for j < 1 *)
 Definition modes_ok (modes : list Z) : bool := negb (existsb (fun j => j <? 1) modes).
 
-(* basis = zernike_basis(mask, modes, True, normalize, rho, theta); pinv(basis) applied to opd.ravel() *)
+(* zernike_basis(mask, modes, vectorize=False, normalize, rho, theta): the cube, basis[i] = zernike(mask, modes[i], ...);
+   an empty list of modes gives the empty cube of shape (0,) + mask.shape *)
+Definition zernike_basis_cube (mask : arr S) (modes : list Z) (normalize : bool) (crd : option Crd)
+  : result (list (arr S)) :=
+  if negb (modes_ok modes) then Err ValueError else Ok (map (fun j => zernike mask j normalize crd) modes).
+(* vectorize=True: basis.reshape(basis.shape[0], -1) - one row per mode, the pixels row-major; numpy cannot infer
+   the -1 for an EMPTY cube and raises ValueError *)
+Definition zernike_basis_vec (mask : arr S) (modes : list Z) (normalize : bool) (crd : option Crd)
+  : result (arr S) :=
+  if negb (modes_ok modes) then Err ValueError else
+  if Nat.eqb (length modes) 0 then Err ValueError else
+  Ok (mkArr (Z.of_nat (length modes)) (nr mask * nc mask) (basis_mat mask modes normalize crd)).
+
+(* basis = zernike_basis(mask, modes, True, normalize, rho, theta); pinv(basis) applied to opd.ravel()
+   (einsum refuses an opd whose size is not the number of columns) *)
 Definition zernike_fit (opd mask : arr S) (modes : list Z) (normalize : bool) (crd : option Crd)
   : result (list S) :=
-  if negb (modes_ok modes) then Err ValueError else
-  let N := nr mask * nc mask in
-  if negb (nr opd * nc opd =? N) then Err ValueError else
-  solve (Z.of_nat (length modes)) N (basis_mat mask modes normalize crd) (ravel opd).
+  rbind (zernike_basis_vec mask modes normalize crd) (fun B =>
+    if negb (nr opd * nc opd =? nc B) then Err ValueError else
+    solve (nr B) (nc B) (get B) (ravel opd)).
 
 (* coeffs = zernike_fit(opd, mask, modes, rho=rho, theta=theta)       -- normalize = True (default)
    basis  = zernike_basis(mask, modes, rho=rho, theta=theta)          -- the same modes, normalize = True
@@ -91,9 +106,17 @@ Definition zernike_fit_a (opd mask : arr S) (modes : list Z) (normalize : bool) 
   if coords_err a (length modes) then Err ValueError else zernike_fit opd mask modes normalize (coords_of a).
 Definition zernike_remove_a (opd mask : arr S) (modes : list Z) (a : coordarg) : result (arr S) :=
   if coords_err a (length modes) then Err ValueError else zernike_remove opd mask modes (coords_of a).
+(* zernike_basis as the public function: the cube (vectorize=False) or the matrix (vectorize=True) *)
+Definition zernike_basis_a (mask : arr S) (modes : list Z) (vectorize normalize : bool) (a : coordarg)
+  : result (list (arr S) + arr S) :=
+  if coords_err a (length modes) then Err ValueError else
+  if vectorize then rbind (zernike_basis_vec mask modes normalize (coords_of a)) (fun B => Ok (Datatypes.inr B))
+  else rbind (zernike_basis_cube mask modes normalize (coords_of a)) (fun cube => Ok (Datatypes.inl cube)).
 End ZernikeFit.
 Arguments CNone {Crd}. Arguments CBoth {Crd}. Arguments CRhoOnly {Crd}. Arguments CThetaOnly {Crd}.
 Arguments coords_of {Crd}. Arguments coords_err {Crd}.
 Arguments zernike_compose_a {S Crd}. Arguments zernike_fit_a {S Crd}. Arguments zernike_remove_a {S Crd}.
+Arguments zernike_basis_a {S Crd}.
 Arguments scatter {S}. Arguments zernike {S Crd}. Arguments zernike_compose {S Crd}. Arguments ravel {S}.
 Arguments basis_mat {S Crd}. Arguments zernike_fit {S Crd}. Arguments zernike_remove {S Crd}.
+Arguments zernike_basis_cube {S Crd}. Arguments zernike_basis_vec {S Crd}.
